@@ -34,7 +34,7 @@ EPS = 0.02  # scheduling hops between "ready" and "started": a handful of loop i
 
 
 def gen_plan(ch: Chooser, tier: str) -> dict[str, Any]:
-    idle = ch.choice([0.01, 0.05, 0.2, 1.0, 5.0])
+    idle = ch.choice([0.01, 0.05, 0.2, 1.0, 5.0, 0.01, 0.05, 0.2, 1.0, 5.0, 0])   # 0: retire at once when idle
     limit = ch.choice([None, None, 1, 2, 3])
     settings = common.base_settings(ch)
     settings.update(idle_timeout=idle, worker_limit=limit,
@@ -172,6 +172,13 @@ def oracle(run: runner.Run, oc: Outcome) -> None:
 
     grace = float(run.plan.get('grace', 30.0))
     saturated = 0
+    if run.step_capped:
+        n_y = sum(len(v) for v in yields.values())
+        n_p = sum(len(v) for v in procs.values())
+        oc.add('C01/lost', 'never-settles',
+               f"the run hit the scheduler's step cap at t={run.sim.now:.3f} with {n_p} of {n_y} delivered events "
+               f"processed: the operator spins without getting anywhere (idle_timeout="
+               f"{common.spec_of(run, 'op1')['settings'].get('idle_timeout')})")
     for uid, ys in yields.items():
         cs = procs.get(uid, [])
         # 2. order + exactly once (prefix of the yielded sequence)
